@@ -1,5 +1,5 @@
 """C15 HA service: first valid reply wins; error only when all endpoints fail; order independent config consolidation."""
-import random, itertools
+import random, itertools, os, sys
 from vlib import core, kexec, pool, net, refksi as R, refserver as S, gen
 
 LEVEL = 'exploration'
@@ -378,6 +378,83 @@ def scenario_readd(sess, rng, r, nep, second, label):
     c('async_free 0')
 
 
+def scenario_late_reply(sess, rng, r, nep, a_second, late_first, label):
+    """request R1 is answered by endpoint 1; the last endpoint stays silent until its copy of R1 has timed out. The next request R2 takes the same cache
+    slot there. Now that endpoint sends its late reply to R1 AND its valid reply to R2 (either order, one batch), the other endpoints fail R2
+    (`a_second`). R2 completes with the last endpoint's valid reply: a reply to an older request says nothing about the request now in the slot."""
+    c = sess.cmd
+    ha = HA(sess, rng, r, nep, 'sign', label, cache=1)       # one slot per endpoint: R2 takes the slot R1 had
+    h1, h2 = R.H(1, b'late1/' + label.encode()), R.H(1, b'late2/' + label.encode())
+    if c('async_add 0 0 sign %s 0 u1' % h1.hex()).rc != 0:
+        c('async_free 0')
+        return
+    saved, got1 = None, None
+    for step in range(8):
+        ha.tick(1)
+        q = ha.run()
+        if q.get('handle') == '1' and q.get('tag') == 'u1':
+            got1 = q
+        for i, host in enumerate(ha.hosts):
+            for info, rq in ha.requests_on(host):
+                if i == nep - 1:
+                    saved = (info, rq)
+                else:
+                    sg = gen.gen_signature(random.Random('%s/1/%d' % (label, i)), first_corr=0, with_cal=False, rfc=False, doc_imprint=h1, time=1500000000, nchains=1)
+                    c('net_push %d %s' % (info['fd'], S.aggr_response(rq, sg, KEY).hex()))
+        if got1 is not None and saved is not None:
+            break
+    if got1 is None or int(got1['state']) != ST_RESP or saved is None:
+        r.count('late_reply_scenarios_without_first_round')
+        c('async_free 0')
+        return
+    for _ in range(3):              # the silent endpoint's copy of R1 runs into the receive time-out
+        ha.tick(6)
+        ha.run()
+    if not saved[0]['open']:
+        r.count('late_reply_scenarios_connection_gone')
+        c('async_free 0')
+        return
+    if c('async_add 0 0 sign %s 0 u2' % h2.hex()).rc != 0:
+        ha.viol('late-reply:second-request-refused', 'request refused although every earlier request is finished or timed out')
+        c('async_free 0')
+        return
+    got2, sig_b2, pushed = None, None, False
+    for step in range(12):
+        ha.tick(1 if step < 6 else 12)
+        q = ha.run()
+        if q.get('handle') == '1' and q.get('tag') == 'u2' and int(q['state']) in (ST_RESP, ST_ERR):
+            got2 = q
+            break
+        for i, host in enumerate(ha.hosts):
+            for info, rq in ha.requests_on(host):
+                if i == nep - 1:
+                    sg1 = gen.gen_signature(random.Random('%s/late' % label), first_corr=0, with_cal=False, rfc=False, doc_imprint=h1, time=1500000000, nchains=1)
+                    sg2 = gen.gen_signature(random.Random('%s/2' % label), first_corr=0, with_cal=False, rfc=False, doc_imprint=h2, time=1500000001, nchains=1)
+                    sig_b2 = sg2.enc().hex()
+                    late, now = S.aggr_response(saved[1], sg1, KEY), S.aggr_response(rq, sg2, KEY)
+                    c('net_push %d %s' % (info['fd'], (late + now if late_first else now + late).hex()))
+                    pushed = True
+                elif a_second == 'err_status':
+                    c('net_push %d %s' % (info['fd'], S.aggr_response(rq, None, KEY, status=0x101, errmsg='bad').hex()))
+                elif a_second == 'err_pdu':
+                    c('net_push %d %s' % (info['fd'], S.error_pdu('aggr', 2, KEY, status=0x300).hex()))
+                elif a_second == 'close':
+                    c('net_eof %d' % info['fd'])
+    if os.environ.get('C15_DEBUG'):
+        print('LATE', label, nep, a_second, late_first, got2 and {k: got2[k] for k in ('state', 'herr') if k in got2}, ' | '.join(ha.trace[-30:]), file=sys.stderr)
+    r.observe(('late-reply', nep, a_second, late_first, got2 and got2.get('state')))
+    if not pushed:
+        r.count('late_reply_scenarios_second_request_not_forwarded')
+    elif got2 is None:
+        ha.viol('late-reply:request-never-returned', 'R2 was not handed back (other endpoints: %s)' % a_second)
+    elif int(got2['state']) != ST_RESP or got2.get('sig') != sig_b2:
+        ha.viol('late-reply:valid-reply-not-delivered', 'the last endpoint answered R2 validly (its late reply to R1 %s it in the same batch), the other endpoints: %s; R2 came back in state %s herr=%s%s' % (
+            'before' if late_first else 'after', a_second, got2.get('state'), got2.get('herr'), '' if got2.get('sig') in (None, sig_b2) else ' with another signature'))
+    else:
+        r.count('late_reply_scenarios_checked')
+    c('async_free 0')
+
+
 def scenario_cachefull(sess, rng, r, nep, silent, r2_outcomes, order, label):
     """per-endpoint 'cache full': endpoints in `silent` never answer request R1 and keep their single cache slot, the others
     answer it validly; request R2 is then refused by the silent endpoints and forwarded to the others only, which produce
@@ -571,6 +648,14 @@ def worker(job, r):
                 if k % nshards != shard:
                     continue
                 scenario_readd(sess, rng, r, nep, list(second), 'ra%d' % k)
+        # a late reply to a timed-out request arrives while the next request uses its slot
+        for nep in (2, 3):
+            for a_second in ('err_status', 'err_pdu', 'close', 'timeout'):
+                for late_first in (True, False):
+                    k += 1
+                    if k % nshards != shard:
+                        continue
+                    scenario_late_reply(sess, rng, r, nep, a_second, late_first, 'lr%d' % k)
         # what is forwarded is what the user asked for (all optional request fields, signing and extending)
         for k2 in range(60):
             k += 1
@@ -639,3 +724,4 @@ def run(ctx):
     if not ctx.violations and not ctx.known_printed:
         ctx.require(c.get('ha_request_scenarios', 0) >= 1300 and c.get('ha_config_scenarios', 0) >= 100 and c.get('ha_partial_forward_scenarios', 0) >= 100 and c.get('ha_forward_completed', 0) >= 40 and c.get('ha_valid_reply_then_close', 0) >= 50, 'scenarios executed')
         ctx.require(c.get('ha_returned_response', 0) > 300 and c.get('ha_returned_error', 0) > 100, 'both response and error completions observed')
+        ctx.require(c.get('late_reply_scenarios_checked', 0) >= 12, 'late replies to timed-out requests observed while the next request uses their slot')
